@@ -63,6 +63,37 @@ def gen_chain_case(rng):
     return g, cfg
 
 
+def gen_fan_case(rng):
+    """one surviving shape whose property points to instances of SEVERAL classes that have no feature at all (their only
+    triples are instantiation triples in an ignored namespace): every reference must go when the empty shapes go"""
+    k = rng.randint(2, 4)
+    g = []
+    empties = []
+    for i in range(k):
+        for j in range(rng.randint(1, 2)):
+            n = I('e%d_%d' % (i, j))
+            g.append((n, RDF_TYPE, I('E%d' % i)))
+            empties.append(n)
+    for j in range(rng.randint(1, 3)):
+        it = I('item%d' % j)
+        g.append((it, RDF_TYPE, I('Item')))
+        g.append((it, EX + 'title', L('t%d' % j)))
+        for n in rng.sample(empties, rng.randint(2, len(empties))):
+            g.append((it, EX + 'marks', n))
+        if rng.random() < 0.5:
+            g.append((it, EX + 'flags', rng.choice(empties)))
+    rng.shuffle(g)
+    cfg = gen.default_cfg()
+    cfg['ignore_ns'] = [RDF]
+    cfg['remove_empty'] = True
+    cfg['inverse'] = rng.random() < 0.2
+    cfg['th'] = rng.choice([(0, 1), (1, 2)])
+    if rng.random() < 0.4:
+        cfg['target_mode'] = 'classes'
+        cfg['targets'] = [EX + 'Item'] + [EX + 'E%d' % i for i in range(k)]
+    return g, cfg
+
+
 def check_shexc(text, g, cfg, kf, reproduced, viol):
     try:
         parsed = shex_text.parse(text)
@@ -105,7 +136,7 @@ def run(ctx):
     rng = random.Random(ctx.seed * 179424673 + 5)
     kf = F.load("C05")
     n = 400 if ctx.tier == "quick" else 8000
-    cases = [gen_case(rng) if rng.random() < 0.85 else gen_chain_case(rng) for _ in range(n)]
+    cases = [gen_case(rng) if rng.random() < 0.8 else (gen_chain_case(rng) if rng.random() < 0.6 else gen_fan_case(rng)) for _ in range(n)]
     ir, dis = base.correspondence(ctx, cases)
     viol, reproduced = [], set()
     stats = {"colliding_prefix_dicts": 0, "custom_shapes_ns": 0, "shapes": 0, "references": 0, "shacl_documents": 0, "empty_shapes_kept": 0}
